@@ -395,7 +395,8 @@ def main(run):
         "(dense and sparse kernels) and Primitive.get_smallest_vectors are compared with the Lean model's implShortest on the "
         "implementation's own reduced basis (exact integer transform of the rational Gram matrix), reduced positions and lattice points, "
         "and with specShortest (minimum over ALL lattice images, box proved complete); independently with a float exhaustive enumeration. "
-        "Cases with distinct lengths closer than 1e-3 are skipped (tolerance edge). Non-trivial = some pair with multiplicity > 1 or a "
+        "Description invariance: the same supercell relabelled by gen.UNIMODULAR (left-handed, sheared, cyclic) must give the same Cartesian vector sets and "
+        "multiplicities, dense and sparse. Cases with distinct lengths closer than 1e-3 are skipped (tolerance edge). Non-trivial = some pair with multiplicity > 1 or a "
         "sheared/needle/plate lattice; distinct by (Gram matrix, positions).")
     run.cov["trusted_base"] = [
         "Lean 4.33 kernel; Mathlib v4.33; axioms per theorem in coverage.theorems",
@@ -693,6 +694,65 @@ def main(run):
                 run.violation("get_smallest_vectors(store_dense_svecs=False)", "dense-ne-sparse-large-call",
                               "dense and sparse tables of one large call (%d threads) do not describe the same sets" % threads, case)
     set_threads(int(__import__("os").environ.get("OMP_NUM_THREADS", "4")))
+
+    # ------------------------------------------------------------ description invariance (relabelled lattice vectors)
+    # The same supercell and positions described with a'_i = sum_j M_ij a_j (gen.UNIMODULAR: left-handed for det -1, sheared,
+    # cyclic), positions x' = x M^-1 in the same atom order: the Cartesian shortest-vector SETS and the multiplicities of every
+    # pair must be the same, dense and sparse; the exhaustive-image oracle is also run on the relabelled description.
+    tags = [rng.choice(["swap12", "negate3", "invert"]), rng.choice(["shear", "cyclic"]), rng.choice(list(gen.UNIMODULAR))] + (
+        [rng.choice(list(gen.UNIMODULAR)) for _ in range(20)] if thorough else [])
+    for tag in tags:
+        for _try in range(20):
+            lat = make_lattice(rng, thorough)
+            basis = lat["basis"]
+            pos = make_positions(rng, rng.randint(2, 4), lat)
+            p_to = np.array([[float(x) for x in p] for p in pos], dtype="double", order="C")
+            p_from = np.array(p_to[:1], dtype="double", order="C")
+            red0 = np.array(C.get_reduced_bases(basis, tolerance=SYMPREC))
+            ex = exhaustive_minimum_images(basis, (p_to[:, None, :] - p_from[None, :, :]).reshape(-1, 3), red=red0)
+            if not any(e[1] for e in ex):
+                break
+        else:
+            continue
+        M = np.array(gen.UNIMODULAR[tag], dtype=int)
+        Minv = np.rint(np.linalg.inv(M)).astype(int)
+        basis2 = np.array(M @ basis, dtype="double", order="C")
+        q_to = np.array(p_to @ Minv, dtype="double", order="C")
+        q_from = np.array(q_to[:1], dtype="double", order="C")
+        case = dict(lattice=lat["name"], basis=basis.tolist(), relabelling=tag, M=M.tolist(), positions=[[str(x) for x in p] for p in pos])
+        run.case(("relabel", tag, tuple(map(tuple, lat["G"])), tuple(map(tuple, pos))), nontrivial=True)
+        run.count("relabelled description %s" % tag)
+        try:
+            res = {}
+            for dense in (True, False):
+                res[("a", dense)] = quiet(get_smallest_vectors, basis, p_to, p_from, store_dense_svecs=dense, symprec=SYMPREC)
+                res[("b", dense)] = quiet(get_smallest_vectors, basis2, q_to, q_from, store_dense_svecs=dense, symprec=SYMPREC)
+        except AssertionError:
+            run.count("relabelled description: extreme change of basis, implementation asserts (skipped)")
+            continue
+        red2 = np.array(C.get_reduced_bases(basis2, tolerance=SYMPREC))
+        ex2 = exhaustive_minimum_images(basis2, (q_to[:, None, :] - q_from[None, :, :]).reshape(-1, 3), red=red2)
+        scale = 30.0
+        for k in range(len(p_to)):
+            run.count("oracle-description-invariance", section="oracle")
+            sets = {}
+            for key, (sv, mu) in res.items():
+                B = basis if key[0] == "a" else basis2
+                if key[1]:
+                    m, adr = int(mu[k, 0, 0]), int(mu[k, 0, 1])
+                    sets[key] = sv[adr:adr + m] @ B
+                else:
+                    sets[key] = sv[k, 0, :int(mu[k, 0])] @ B
+            want = ex2[k][0] @ basis2
+            for key in sets:
+                if key != ("a", True) and not same_set(sets[key], sets[("a", True)], scale):
+                    run.violation("get_smallest_vectors(store_dense_svecs=%s)" % key[1], "description-dependent",
+                                  "pair (%d,0): %d Cartesian shortest vectors in the %s description, %d in the original one, or different sets"
+                                  % (k, len(sets[key]), "relabelled" if key[0] == "b" else "original (sparse)", len(sets[("a", True)])), dict(case, pair=[k, 0]))
+                    break
+            if not same_set(sets[("b", True)], want, scale):
+                run.violation("get_smallest_vectors(store_dense_svecs=True)", "not-minimum-images-relabelled",
+                              "pair (%d,0) of the relabelled (%s) description: stored vectors are not the exhaustive minimum images" % (k, tag), dict(case, pair=[k, 0]))
 
     # ------------------------------------------------------------ Primitive.get_smallest_vectors
     names = ["sc", "cscl", "nacl_prim", "bcc", "fcc", "hcp", "zincblende_prim", "bct", "ortho_C", "mono_P", "triclinic", "rhombo", "nacl", "diamond", "wurtzite"]
